@@ -46,6 +46,8 @@ type inProgressResponseStatus struct {
 	state          graphsync.RequestState
 	startTime      time.Time
 	responseStream responseassembler.ResponseStream
+	// subscriber is the party attached to every message sent for this response
+	subscriber *subscriber
 	// networkError is set once sending to the peer failed for this response:
 	// its response stream is closed and nothing queued afterwards will go out
 	networkError bool
@@ -196,7 +198,7 @@ func (rm *ResponseManager) PauseResponse(ctx context.Context, requestID graphsyn
 // CancelResponse cancels an in progress response
 func (rm *ResponseManager) CancelResponse(ctx context.Context, requestID graphsync.RequestID) error {
 	response := make(chan error, 1)
-	err := rm.send(&errorRequestMessage{requestID, queryexecutor.ErrCancelledByCommand, response}, ctx.Done())
+	err := rm.send(&errorRequestMessage{requestID, nil, queryexecutor.ErrCancelledByCommand, response}, ctx.Done())
 	if err != nil {
 		return err
 	}
@@ -254,9 +256,9 @@ func (rm *ResponseManager) FinishTask(task *peertask.Task, p peer.ID, err error)
 }
 
 // CloseWithNetworkError closes a request due to a network error
-func (rm *ResponseManager) CloseWithNetworkError(requestID graphsync.RequestID) {
+func (rm *ResponseManager) CloseWithNetworkError(requestID graphsync.RequestID, s *subscriber) {
 	done := make(chan error, 1)
-	_ = rm.send(&errorRequestMessage{requestID, queryexecutor.ErrNetworkError, done}, nil)
+	_ = rm.send(&errorRequestMessage{requestID, s, queryexecutor.ErrNetworkError, done}, nil)
 	select {
 	case <-rm.ctx.Done():
 	case <-done:
@@ -264,9 +266,9 @@ func (rm *ResponseManager) CloseWithNetworkError(requestID graphsync.RequestID) 
 }
 
 // TerminateRequest indicates a request has finished sending data and should no longer be tracked
-func (rm *ResponseManager) TerminateRequest(requestID graphsync.RequestID) {
+func (rm *ResponseManager) TerminateRequest(requestID graphsync.RequestID, s *subscriber) {
 	done := make(chan struct{}, 1)
-	_ = rm.send(&terminateRequestMessage{requestID, done}, nil)
+	_ = rm.send(&terminateRequestMessage{requestID, s, done}, nil)
 	select {
 	case <-rm.ctx.Done():
 	case <-done:
